@@ -38,7 +38,9 @@ const Type& POWExpression::type(Context &ctx) const
     return Value::type_imaginary;
   if (t0 == Type::INTEGER && t1 == Type::INTEGER)
     return Value::type_integer;
-  return Value::type_numeric;
+  if (t0 == Type::NUMERIC || t1 == Type::NUMERIC)
+    return Value::type_numeric;
+  return Value::type_no_type;
 }
 
 #define LVAL2(V,A,B) (\
